@@ -6,7 +6,7 @@ export GOFLAGS=-mod=mod GOPROXY=off GOSUMDB=off GOTOOLCHAIN=local
 if [ ! -d $W ] || [ "$(git -C $W rev-parse HEAD)" != "$(git -C /repo rev-parse HEAD)" ]; then
   git -C /repo worktree remove --force $W 2>/dev/null; rm -rf $W; git -C /repo worktree add -q --detach $W HEAD || exit 2
 fi
-for p in $src/B*/benign*/patch.diff; do
+for p in $src/*/*/patch.diff; do
   b=$(basename $(dirname $(dirname $p))); if [ -n "$only" ] && ! echo " $only " | grep -q " $b "; then continue; fi
   name=$(echo $p | sed "s#$src/##; s#/patch.diff##")
   git -C $W checkout -q -- . ; git -C $W clean -fdq
